@@ -35,9 +35,21 @@ type c16Case struct {
 
 const c16Methods = 22
 
-func c16Pool(c *c16Case) []geojson.Object {
-	pool := make([]geojson.Object, len(c.Specs))
-	for i := range c.Specs {
+// c16Builder returns the size of the pool and a function that builds pool member i afresh.
+func c16Builder(c *c16Case) (int, func(i int) geojson.Object) {
+	var docs []int // documents that parse
+	for i, d := range c.Docs {
+		if _, err := geojson.Parse(d, c16DocOpts(i)); err == nil {
+			docs = append(docs, i)
+		}
+	}
+	n := len(c.Specs) + len(docs)
+	return n, func(i int) geojson.Object {
+		if i >= len(c.Specs) {
+			d := docs[i-len(c.Specs)]
+			o, _ := geojson.Parse(c.Docs[d], c16DocOpts(d))
+			return o
+		}
 		o := c.Specs[i].build()
 		switch c.Parsed[i] {
 		case 1:
@@ -49,13 +61,19 @@ func c16Pool(c *c16Case) []geojson.Object {
 				o = p
 			}
 		}
-		pool[i] = o
+		return o
 	}
-	for i, d := range c.Docs {
-		opts := &geojson.ParseOptions{IndexChildren: i % 2, IndexGeometry: i % 2, IndexGeometryKind: geometry.QuadTree, AllowSimplePoints: i%3 == 0, AllowRects: i%3 == 1}
-		if o, err := geojson.Parse(d, opts); err == nil {
-			pool = append(pool, o)
-		}
+}
+
+func c16DocOpts(i int) *geojson.ParseOptions {
+	return &geojson.ParseOptions{IndexChildren: i % 2, IndexGeometry: i % 2, IndexGeometryKind: geometry.QuadTree, AllowSimplePoints: i%3 == 0, AllowRects: i%3 == 1}
+}
+
+func c16Pool(c *c16Case) []geojson.Object {
+	n, build := c16Builder(c)
+	pool := make([]geojson.Object, n)
+	for i := range pool {
+		pool[i] = build(i)
 	}
 	return pool
 }
@@ -177,9 +195,21 @@ func c16Check(c c16Case) fw.Outcome {
 	}
 	for rep := 0; rep < reps; rep++ {
 		seq, conc := c16Pool(&c), c16Pool(&c)
+		n, build := c16Builder(&c)
 		want := make([]string, len(c.Ops))
 		for i, op := range c.Ops {
-			want[i] = c16Exec(seq, op)
+			// "the value it returns when run alone": on objects built for this one call
+			r, a := op.Recv%n, op.Arg%n
+			pair := []geojson.Object{build(r), nil}
+			pair[1] = pair[0]
+			if a != r {
+				pair[1] = build(a)
+			}
+			want[i] = c16Exec(pair, c16Op{M: op.M, Recv: 0, Arg: 1})
+			// ... and the same value when it is one call in a sequence on long-lived objects (no call leaves a trace)
+			if got := c16Exec(seq, op); got != want[i] {
+				return fw.Failf("round", "operation %d (method %d on object %d with %d) returned %q after %d earlier calls on the same objects and %q on freshly built ones", i, op.M%c16Methods, r, a, clipStr(got), i, clipStr(want[i]))
+			}
 		}
 		G := max(2, c.G)
 		var wg sync.WaitGroup
